@@ -11,7 +11,6 @@
 package main
 
 import (
-	"context"
 	"encoding/json"
 	"fmt"
 	"os"
@@ -34,7 +33,9 @@ type Case struct {
 	Variables map[string]interface{} `json:"variables,omitempty"`
 	OpName    string                 `json:"op_name,omitempty"`
 	World     *gqlgen.Outcome        `json:"world"`
-	Note      string                 `json:"note,omitempty"`
+	// AsyncSeed seeds the idle handler's choices when the world has outcomes marked async (async.go).
+	AsyncSeed uint64 `json:"async_seed,omitempty"`
+	Note      string `json:"note,omitempty"`
 }
 
 // Eval is everything observed for one case.
@@ -49,13 +50,18 @@ type Eval struct {
 	Oracle   string // which oracle / obligation failed
 	What     string
 	Stats    *gqlgen.DocStats
+	// the asynchronous run (only when the world has outcomes marked async)
+	Async     *Obs
+	AsyncJSON string
+	AsyncInfo string
 }
 
 type harness struct {
-	run      *hx.Run
-	model    *hx.Model
-	schemas  map[string]*gqlgen.Built
-	failures int // failing cases seen so far (the first few are shrunk and reported, then the run stops)
+	run       *hx.Run
+	model     *hx.Model
+	schemas   map[string]*gqlgen.Built
+	asyncTick int
+	failures  int // failing cases seen so far (the first few are shrunk and reported, then the run stops)
 }
 
 const maxFailures = 6
@@ -142,28 +148,8 @@ func (h *harness) evaluate(c *Case) *Eval {
 		return ev
 	}
 
-	// real
-	func() {
-		defer func() {
-			if p := recover(); p != nil {
-				ev.Real.Crash = fmt.Sprint(p)
-			}
-		}()
-		resp := graphql.Execute(&graphql.Request{Context: context.Background(), Document: doc, Schema: b.Schema,
-			OperationName: c.OpName, VariableValues: c.Variables, InitialValue: c.World.Node()})
-		body, err := json.Marshal(resp)
-		if err != nil {
-			ev.Real.Crash = "response cannot be marshalled: " + err.Error()
-			return
-		}
-		ev.RealJSON = string(body)
-		o, err := obsFromResponseJSON(body)
-		if err != nil {
-			ev.Real.Crash = "response is not JSON: " + err.Error()
-			return
-		}
-		ev.Real = o
-	}()
+	// real (synchronous: without a scheduler every outcome is delivered directly)
+	ev.Real, ev.RealJSON = h.runReal(b, doc, c, nil)
 	if ev.Real.Crash != "" {
 		ev.Kind, ev.Oracle, ev.What = "crash", "crash", ev.Real.Crash
 		return ev
@@ -205,6 +191,11 @@ func (h *harness) evaluate(c *Case) *Eval {
 			h.specVsRef(ev, mr)
 		}
 	}
+
+	// the same request with the marked outcomes delivered through promises
+	if ev.Kind == "" && c.World.HasAsync() {
+		h.evalAsync(ev, b, doc, c)
+	}
 	return ev
 }
 
@@ -243,10 +234,17 @@ func (h *harness) specVsRef(ev *Eval, mr *ModelReply) {
 
 // oracles states the property on the implementation's own output.
 func (h *harness) oracles(ev *Eval) {
-	real, ref := ev.Real, ev.Ref
-	fail := func(oracle, what string) {
-		if ev.Kind == "" {
-			ev.Kind, ev.Oracle, ev.What = "property", oracle, what
+	if oracle, what := oracleVerdict(ev.Real, ev.Ref); oracle != "" && ev.Kind == "" {
+		ev.Kind, ev.Oracle, ev.What = "property", oracle, what
+	}
+}
+
+// oracleVerdict evaluates the property oracles on one observable against the reference; it returns the
+// first failing oracle ("" when all hold). None of them depends on the order of the errors.
+func oracleVerdict(real Obs, ref RefResult) (oracle, what string) {
+	fail := func(o, w string) {
+		if oracle == "" {
+			oracle, what = o, w
 		}
 	}
 	if ref.RequestError {
@@ -283,6 +281,7 @@ func (h *harness) oracles(ev *Eval) {
 			fail("error-shape", fmt.Sprintf("field error without path or location: %+v\nimplementation: %s", e, real))
 		}
 	}
+	return
 }
 
 // findingKey recognises the pre-fix signatures of the two repaired defects (status "fixed" in the
@@ -332,7 +331,7 @@ func (h *harness) record(c *Case, ev *Eval, family string) {
 		}
 		return
 	}
-	key := hx.Hash(c.Query + "\x00" + c.OpName + "\x00" + c.World.Sexp().String() + "\x00" + c.Schema.Sexp().String())
+	key := hx.Hash(c.Query + "\x00" + c.OpName + "\x00" + c.World.Sexp().String() + "\x00" + c.Schema.Sexp().String() + fmt.Sprintf("\x00%d", c.AsyncSeed))
 	run.Case(key, nontrivial(ev))
 	if ev.Ref.RequestError {
 		run.Count("ref:request-error")
@@ -405,6 +404,9 @@ func (h *harness) check(c *Case, family string) *Eval {
 	ev := h.evaluate(c)
 	h.record(c, ev, family)
 	if ev.Kind == "" {
+		if ev.Status == "ok" && !ev.Ref.RequestError && !c.World.HasAsync() && family != "corpus" {
+			h.asyncVariants(c, ev, family)
+		}
 		return ev
 	}
 	h.failures++
@@ -451,6 +453,9 @@ func main() {
 		fmt.Printf("response json:  %s\n", ev.RealJSON)
 		if ev.Model != nil {
 			fmt.Printf("model:          %s\n", ev.Model.Model)
+		}
+		if ev.Async != nil {
+			fmt.Printf("asynchronous:   %s (%s)\nasync json:     %s\n", *ev.Async, ev.AsyncInfo, ev.AsyncJSON)
 		}
 		fmt.Printf("reference:      data=%s required=%v all=%v requestError=%v\n", ev.Ref.Data, ev.Ref.Req, ev.Ref.All, ev.Ref.RequestError)
 		if ev.Kind != "" {
